@@ -6,7 +6,7 @@ Each handler: h(interp, path, args, ret_ty, callee) -> V | [Outcome].
 import re
 import z3
 
-from .values import (V, IntV, BoolV, StructV, EnumV, RefV, UnitV, StrV, FnV, UndefV, int_range, is_int_ty,
+from .values import (V, IntV, BoolV, StructV, EnumV, RefV, UnitV, StrV, StrSymV, FnV, UndefV, int_range, is_int_ty,
                      norm_ty, concrete, zint, ite_value, BIG_RE, INT_TYPES)
 
 MODELS = []       # (compiled regex on normalised callee, handler, description)
@@ -27,6 +27,7 @@ def model(pattern, desc, force=False):
 def canon(callee):
     """normalised callee path; `BInt::<3>::f` and `<impl BInt<3>>::f` are the same function"""
     callee = re.sub(r"^num_bigint::BigInt::(\w+)$", r"<impl BigInt>::\1", callee.strip())
+    callee = re.sub(r"^bnum::errors::ParseIntError::(\w+)$", r"<impl BnumParseIntError>::\1", callee)
     n = norm_ty(callee)
     n = re.sub(r"^(BInt|BUint)::<(\d+)>::(\w+)$", r"<impl \1<\2>>::\3", n)
     return n
@@ -511,6 +512,139 @@ def m_bigint_pow(interp, path, args, ret_ty, callee):
     return IntV(t, "BigInt")
 
 
+# ---------------------------------------------------------------- strings (concrete length, symbolic ASCII bytes)
+def _symstr(interp, path, v):
+    v = deref(interp, path, v)
+    if v.kind == "str":
+        return StrSymV([ord(c) for c in v.text])
+    if v.kind != "symstr":
+        raise Refuse("string operation on %r" % (v,))
+    return v
+
+
+@model(r"<impl str>::len$", "byte length (concrete)")
+def m_str_len(interp, path, args, ret_ty, callee):
+    return IntV(len(_symstr(interp, path, args[0]).bytes), "usize")
+
+
+@model(r"<impl str>::is_empty$", "length == 0")
+def m_str_is_empty(interp, path, args, ret_ty, callee):
+    return BoolV(len(_symstr(interp, path, args[0]).bytes) == 0)
+
+
+@model(r"<impl str>::starts_with::<char>$", "first byte equals the (ASCII) char")
+def m_str_starts_with(interp, path, args, ret_ty, callee):
+    s_ = _symstr(interp, path, args[0])
+    if not s_.bytes:
+        return BoolV(False)
+    return BoolV(s_.bytes[0] == args[1].term)
+
+
+@model(r"<impl str>::split::<char>$", "lazy split on an ASCII char")
+def m_str_split(interp, path, args, ret_ty, callee):
+    return StructV("StrSplitChar", [_symstr(interp, path, args[0]), args[1]])
+
+
+@model(r"^<Split<'_, char> as Iterator>::collect::<Vec<&str>>$",
+       "pieces between the separator bytes: forks on which positions hold the separator")
+def m_split_collect(interp, path, args, ret_ty, callee):
+    sp = args[0]
+    if sp.kind != "struct" or sp.ty != "StrSplitChar":
+        raise Refuse("collect over %r" % (sp,))
+    s_, sep = sp.fields[0], sp.fields[1].term
+    outs = []
+
+    def rec(p, i, cur, pieces):
+        if i == len(s_.bytes):
+            outs.append(Outcome(p, "ret", StructV("Vec<&str>", [StrSymV(x) for x in pieces + [cur]])))
+            return
+        b = s_.bytes[i]
+        for p2, tag in interp.fork(p, [(b == sep, "sep"), (b != sep, "other")]):
+            if tag == "sep":
+                rec(p2, i + 1, [], pieces + [cur])
+            else:
+                rec(p2, i + 1, cur + [b], pieces)
+    rec(path, 0, [], [])
+    return outs
+
+
+@model(r"^Vec::<&str>::len$", "number of pieces")
+def m_vecstr_len(interp, path, args, ret_ty, callee):
+    v = deref(interp, path, args[0])
+    return IntV(len(v.fields), "usize")
+
+
+@model(r"^<Vec<&str> as Index<usize>>::index$", "element by concrete index; out of bounds panics")
+def m_vecstr_index(interp, path, args, ret_ty, callee):
+    from .interp import _ConstRef
+    v = deref(interp, path, args[0])
+    i = concrete(args[1].term)
+    if i is None:
+        raise Refuse("Vec<&str> index with symbolic index")
+    if not (0 <= i < len(v.fields)):
+        return [Outcome(path, "panic", msg="index out of bounds: Vec<&str>[%d]" % i)]
+    return _ConstRef("&&str", v.fields[i])
+
+
+@model(r"^<(BInt<\d+>|BUint<\d+>) as FromStr>::from_str$",
+       "bnum from_str_radix(src, 10) on an ASCII string short enough not to overflow: \"\" -> Empty; optional leading "
+       "'+'/'-' (a lone sign -> InvalidDigit; '-' on an unsigned type -> InvalidDigit); every other byte must be a "
+       "digit else InvalidDigit; value = sign * digits")
+def m_bnum_from_str(interp, path, args, ret_ty, callee):
+    ty = re.match(r"^<(\w+<\d+>) as", canon(callee)).group(1)
+    signed = ty.startswith("BInt")
+    if not signed:
+        raise Refuse("from_str model covers the signed BInt types only")
+    s_ = _symstr(interp, path, args[0])
+    bs = s_.bytes
+    lo, hi = int_range(ty)
+    if len(bs) > 50 or 10 ** len(bs) > hi:
+        raise Refuse("from_str on a string long enough to overflow %s" % ty)
+
+    def err(kind):
+        return EnumV(ret_ty, 1, {1: [StructV("ParseIntError", [EnumV("IntErrorKind", kind, {kind: []})])]})
+
+    def ok(t):
+        return EnumV(ret_ty, 0, {0: [IntV(t, ty)]})
+    if not bs:
+        return err(0)
+
+    def digits_val(ds):
+        t = zint(0)
+        for d in ds:
+            t = t * 10 + (d - 48)
+        return t
+
+    def all_digits(ds):
+        return z3.And([z3.And(d >= 48, d <= 57) for d in ds]) if ds else z3.BoolVal(True)
+    outs = []
+    b0 = bs[0]
+    conds = [(b0 == 45, "minus"), (b0 == 43, "plus"), (z3.And(b0 != 45, b0 != 43), "none")]
+    for p, tag in interp.fork(path, conds):
+        ds = bs if tag == "none" else bs[1:]
+        if tag != "none" and not ds:
+            outs.append(Outcome(p, "ret", err(1)))
+            continue
+        if tag == "minus" and not signed:
+            # BUint: '-' is not a sign, it is an invalid digit
+            outs.append(Outcome(p, "ret", err(1)))
+            continue
+        for p2, t2 in interp.fork(p, [(all_digits(ds), "ok"), (z3.Not(all_digits(ds)), "bad")]):
+            if t2 == "bad":
+                outs.append(Outcome(p2, "ret", err(1)))
+            else:
+                v = digits_val(ds)
+                outs.append(Outcome(p2, "ret", ok(-v if tag == "minus" else v)))
+    return outs
+
+
+@model(r"^<impl BnumParseIntError>::kind$", "the error kind")
+def m_bnum_err_kind(interp, path, args, ret_ty, callee):
+    from .interp import _ConstRef
+    e = deref(interp, path, args[0])
+    return _ConstRef("&IntErrorKind", e.fields[0])
+
+
 # ---------------------------------------------------------------- Option / Result / Try
 def _is_opt(callee):
     return norm_ty(callee).startswith("Option")
@@ -713,6 +847,180 @@ def m_iter_collect_result_map(interp, path, args, ret_ty, callee):
             def on_err(pp, r=r):
                 return [Outcome(pp, "ret", EnumV(ret_ty, 1, {1: r.variants[1]}))]
             outs += fork_enum(interp, o.path, r, {0: on_ok, 1: on_err})
+    return outs
+
+
+# ---------------------------------------------------------------- hash / index maps as bounded symbolic slot arrays
+# A map (HashMap, NonIterMap, IndexMap, BTreeMap used as a dictionary) is a StructV of type "SymMap<..>" whose fields are
+# SLOTS: StructV("Slot", [key, value, BoolV present]). The number of slots is the job's capacity bound; keys, values
+# and presence flags are symbolic, so one slot array stands for every map with at most that many entries. The job's
+# precondition states that present keys are pairwise distinct. Lookups fork on which present slot holds the key;
+# insertions take the first free slot (no free slot = the capacity bound is exceeded: an unwinding obligation).
+# Iteration order is NOT modelled (only keyed access).
+def val_eq(a, b):
+    """structural equality of two values as a z3 Bool"""
+    if a.kind == "ref" or b.kind == "ref":
+        raise Refuse("equality on references")
+    if a.kind == "int" and b.kind == "int":
+        return a.term == b.term
+    if a.kind == "bool" and b.kind == "bool":
+        return a.term == b.term
+    if a.kind == "unit" and b.kind == "unit":
+        return z3.BoolVal(True)
+    if a.kind == "struct" and b.kind == "struct" and len(a.fields) == len(b.fields):
+        return z3.And([val_eq(x, y) for x, y in zip(a.fields, b.fields)]) if a.fields else z3.BoolVal(True)
+    if a.kind == "enum" and b.kind == "enum":
+        cs = [a.discr == b.discr]
+        for k in set(a.variants) & set(b.variants):
+            fs = [val_eq(x, y) for x, y in zip(a.variants[k], b.variants[k]) if x.kind != "undef" and y.kind != "undef"]
+            if fs:
+                cs.append(z3.Implies(a.discr == k, z3.And(fs)))
+        return z3.And(cs)
+    raise Refuse("equality of %r and %r" % (a, b))
+
+
+def _symmap(interp, path, mref):
+    if mref.kind != "ref" or hasattr(mref, "target"):
+        raise Refuse("map operation needs a reference to a map place, got %r" % (mref,))
+    m = interp.read(path, mref.fid, mref.local, mref.projs)
+    if m.kind != "struct" or not m.ty.startswith("SymMap"):
+        raise Refuse("map operation on %r" % (m,))
+    return m
+
+
+def _slot_ref(mref, i, ty="&mut V", interp=None, path=None):
+    if interp is not None:
+        try:
+            vt = _symmap(interp, path, mref).fields[i].fields[1].ty
+            ty = ("&mut " if ty.startswith("&mut") else "&") + vt
+        except Exception:
+            pass
+    return RefV(ty, mref.fid, mref.local, tuple(mref.projs) + (("field", i), ("field", 1)))
+
+
+def _map_find(interp, path, mref, key):
+    """fork: -> [(path, slot index or None)]"""
+    m = _symmap(interp, path, mref)
+    key = deref(interp, path, key)
+    conds = []
+    hits = []
+    for i, s_ in enumerate(m.fields):
+        c = z3.And(s_.fields[2].term, val_eq(s_.fields[0], key))
+        hits.append(c)
+        conds.append((c, i))
+    conds.append((z3.Not(z3.Or(hits)) if hits else z3.BoolVal(True), None))
+    return interp.fork(path, conds), key
+
+
+def _map_free_slot(interp, path, mref):
+    """fork: -> [(path, free slot index)] ; plus an unwind outcome when the map is full"""
+    m = _symmap(interp, path, mref)
+    conds = []
+    for i, s_ in enumerate(m.fields):
+        earlier = [m.fields[j].fields[2].term for j in range(i)]
+        conds.append((z3.And([z3.Not(s_.fields[2].term)] + earlier), i))
+    conds.append((z3.And([s_.fields[2].term for s_ in m.fields]) if m.fields else z3.BoolVal(True), "full"))
+    return interp.fork(path, conds)
+
+
+def _map_put(interp, path, mref, i, key, value):
+    m = _symmap(interp, path, mref)
+    fs = list(m.fields)
+    fs[i] = StructV("Slot", [key, value, BoolV(True)])
+    interp.write(path, mref.fid, mref.local, mref.projs, StructV(m.ty, fs))
+
+
+MAP_TY = r"(NonIterMap|HashMap|IndexMap|BTreeMap)"
+
+
+@model(r"^" + MAP_TY + r"::<.*>::entry$", "entry API: remembers (map, key)")
+def m_map_entry(interp, path, args, ret_ty, callee):
+    _symmap(interp, path, args[0])
+    return StructV("MapEntry", [args[0], deref(interp, path, args[1])])
+
+
+@model(r"^(hash_map::|map::|btree_map::)?Entry::<.*>::or_insert$",
+       "&mut to the value of the key, inserting the default into a free slot when absent")
+def m_entry_or_insert(interp, path, args, ret_ty, callee):
+    e = args[0]
+    if e.kind != "struct" or e.ty != "MapEntry":
+        raise Refuse("or_insert on %r" % (e,))
+    mref, key = e.fields
+    outs = []
+    found, key = _map_find(interp, path, mref, key)
+    for p, i in found:
+        if i is not None:
+            outs.append(Outcome(p, "ret", _slot_ref(mref, i, "&mut V", interp, p)))
+            continue
+        for p2, j in _map_free_slot(interp, p, mref):
+            if j == "full":
+                outs.append(Outcome(p2, "unwind", msg="map capacity bound exceeded in or_insert"))
+            else:
+                _map_put(interp, p2, mref, j, key, args[1])
+                outs.append(Outcome(p2, "ret", _slot_ref(mref, j, "&mut V", interp, p2)))
+    return outs
+
+
+@model(r"^" + MAP_TY + r"::<.*>::(get|get_mut)(::<.*>)?$", "Some(&value) of the slot holding the key, else None")
+def m_map_get(interp, path, args, ret_ty, callee):
+    mref = args[0]
+    outs = []
+    found, key = _map_find(interp, path, mref, args[1])
+    for p, i in found:
+        if i is None:
+            outs.append(Outcome(p, "ret", EnumV(ret_ty, 0, {0: []})))
+        else:
+            outs.append(Outcome(p, "ret", EnumV(ret_ty, 1, {1: [_slot_ref(
+                mref, i, "&mut V" if canon(callee).rstrip(">").endswith("get_mut") or "get_mut::<" in canon(callee) else "&V",
+                interp, p)]})))
+    return outs
+
+
+@model(r"^" + MAP_TY + r"::<.*>::contains_key(::<.*>)?$", "some present slot holds the key")
+def m_map_contains(interp, path, args, ret_ty, callee):
+    m = _symmap(interp, path, args[0])
+    key = deref(interp, path, args[1])
+    hits = [z3.And(s_.fields[2].term, val_eq(s_.fields[0], key)) for s_ in m.fields]
+    return BoolV(z3.Or(hits) if hits else z3.BoolVal(False))
+
+
+@model(r"^" + MAP_TY + r"::<.*>::insert$", "overwrite the key's slot (Some(old)) or fill a free slot (None)")
+def m_map_insert(interp, path, args, ret_ty, callee):
+    mref = args[0]
+    outs = []
+    found, key = _map_find(interp, path, mref, args[1])
+    for p, i in found:
+        if i is not None:
+            m = _symmap(interp, p, mref)
+            old = m.fields[i].fields[1]
+            _map_put(interp, p, mref, i, key, args[2])
+            outs.append(Outcome(p, "ret", EnumV(ret_ty, 1, {1: [old]})))
+            continue
+        for p2, j in _map_free_slot(interp, p, mref):
+            if j == "full":
+                outs.append(Outcome(p2, "unwind", msg="map capacity bound exceeded in insert"))
+            else:
+                _map_put(interp, p2, mref, j, key, args[2])
+                outs.append(Outcome(p2, "ret", EnumV(ret_ty, 0, {0: []})))
+    return outs
+
+
+@model(r"^" + MAP_TY + r"::<.*>::(remove|swap_remove|shift_remove)(::<.*>)?$",
+       "Some(value) and the slot becomes free, or None (the order effect of swap_remove is not modelled)")
+def m_map_remove(interp, path, args, ret_ty, callee):
+    mref = args[0]
+    outs = []
+    found, key = _map_find(interp, path, mref, args[1])
+    for p, i in found:
+        if i is None:
+            outs.append(Outcome(p, "ret", EnumV(ret_ty, 0, {0: []})))
+            continue
+        m = _symmap(interp, p, mref)
+        old = m.fields[i]
+        fs = list(m.fields)
+        fs[i] = StructV("Slot", [old.fields[0], old.fields[1], BoolV(False)])
+        interp.write(p, mref.fid, mref.local, mref.projs, StructV(m.ty, fs))
+        outs.append(Outcome(p, "ret", EnumV(ret_ty, 1, {1: [old.fields[1]]})))
     return outs
 
 
